@@ -74,6 +74,10 @@ pub struct ReplayFile {
     pub expected: Violation,
     pub minimised: bool,
     pub note: String,
+    /// process-level failures (abort, wall-clock hang) have no recorded tape: replay re-draws the
+    /// decisions from the seed (generate mode), which is just as deterministic
+    #[serde(default)]
+    pub gen_mode: bool,
 }
 
 pub struct RunOutcome {
@@ -476,6 +480,7 @@ pub fn worker(prop: &dyn Prop, a: &WorkerArgs) {
                     "found at run index {} with VERIF_SEED={}; {} candidate runs while minimising; original tape {} entries",
                     idx, a.seed, tried, o.tape.0.len()
                 ),
+                gen_mode: false,
             };
             let name = format!(
                 "{}-{}-{:016x}.json",
@@ -556,7 +561,7 @@ pub fn replay_file(props: &[&dyn Prop], path: &Path, verbose: bool) -> i32 {
     };
     let scratch = scratch_root().join("replay");
     std::fs::create_dir_all(&scratch).ok();
-    let o = execute(prop, &f.scenario, f.seed, Some(&f.tape), &scratch, verbose);
+    let o = execute(prop, &f.scenario, f.seed, if f.gen_mode { None } else { Some(&f.tape) }, &scratch, verbose);
     std::fs::remove_dir_all(scratch_root()).ok();
     if verbose {
         if let Some(l) = &o.log {
@@ -586,6 +591,61 @@ pub fn replay_file(props: &[&dyn Prop], path: &Path, verbose: bool) -> i32 {
             o.violations.len()
         );
         0
+    }
+}
+
+/// Replay wrapper: process-level failures (abort / hang) are re-executed in a child process; its
+/// abnormal death or a timeout reproduces the violation.
+pub fn replay_cmd(props: &[&dyn Prop], path: &Path, verbose: bool) -> i32 {
+    let txt = std::fs::read_to_string(path).unwrap_or_default();
+    let f: ReplayFile = match serde_json::from_str(&txt) {
+        Ok(f) => f,
+        Err(e) => {
+            eprintln!("cannot parse {}: {}", path.display(), e);
+            return 2;
+        }
+    };
+    let process_level = f.rule.ends_with("/abort") || f.class == "wall-clock";
+    if !process_level {
+        return replay_file(props, path, verbose);
+    }
+    let exe = match std::env::current_exe() {
+        Ok(e) => e,
+        Err(_) => return 2,
+    };
+    let mut ch = match std::process::Command::new(exe).arg("replay-inner").arg(path).stdin(std::process::Stdio::null()).stdout(std::process::Stdio::null()).stderr(std::process::Stdio::null()).spawn() {
+        Ok(c) => c,
+        Err(_) => return 2,
+    };
+    let st = Instant::now();
+    let limit = Duration::from_secs(120);
+    loop {
+        match ch.try_wait() {
+            Ok(Some(status)) => {
+                let normal = matches!(status.code(), Some(0) | Some(1) | Some(2));
+                if f.rule.ends_with("/abort") && !normal {
+                    println!("VIOLATION property={} replay={}", f.property, path.display());
+                    println!("  rule={} class={} :: the replay process died again ({:?})", f.rule, f.class, status);
+                    return 1;
+                }
+                println!("replay of {} finished normally ({:?}): not reproduced", path.display(), status);
+                return 0;
+            }
+            Ok(None) => {
+                if st.elapsed() > limit {
+                    ch.kill().ok();
+                    ch.wait().ok();
+                    if f.class == "wall-clock" {
+                        println!("VIOLATION property={} replay={}", f.property, path.display());
+                        println!("  rule={} class={} :: the replay did not finish within {:?} either", f.rule, f.class, limit);
+                        return 1;
+                    }
+                    return 0;
+                }
+                std::thread::sleep(Duration::from_millis(50));
+            }
+            Err(_) => return 2,
+        }
     }
 }
 
@@ -921,6 +981,7 @@ pub fn check(prop: &dyn Prop, a: &CheckArgs) -> i32 {
             expected: v.clone(),
             minimised: false,
             note: "process-level failure; replay re-generates decisions from the seed (generate mode)".into(),
+            gen_mode: true,
         };
         let path = replay_dir.join(format!(
             "{}-{}-{:016x}.json",
@@ -950,6 +1011,7 @@ pub fn check(prop: &dyn Prop, a: &CheckArgs) -> i32 {
             expected: v.clone(),
             minimised: false,
             note: "parent-level check (no schedule involved)".into(),
+            gen_mode: false,
         };
         std::fs::write(&path, serde_json::to_string_pretty(&file).unwrap()).ok();
         found.push(FoundViolation {
